@@ -452,6 +452,11 @@ func skipContainer(src string, pos int, depth int) (ret int) {
 		return pos + 1
 	}
 
+	// NOTICE: the native implementation needs one more state for the members of an object
+	if isObj && depth+1 >= maxSkipDepth {
+		return -int(types.ERR_RECURSE_EXCEED_MAX)
+	}
+
 	for {
 		if isObj {
 			if pos, _ = skipString(src, pos); pos < 0 {
